@@ -38,6 +38,7 @@ def product_on_state(s, sidx, text='hostile'):
 
 
 def run(s):
+    K.hostile_callers(s)
     K.suite_workload(s)
     K.fixtures_workload(s)
     K.collision_cases(s)
